@@ -163,7 +163,207 @@ def plan_C01(tier, rng):
     return cs, models, {"input_families": cs.tags, "configurations": cfgs}
 
 
-PLANS = {"C01": plan_C01}
+# ================================================================================================
+# helpers shared by plans
+
+_FMT = None
+
+
+def fmt_id(name):
+    global _FMT
+    if _FMT is None:
+        _FMT = {f["name"]: f for f in vlib.load_formats()}
+    return _FMT[name]["id"]
+
+
+def radix_fmt(r):
+    return 0 if r == 10 else fmt_id("radix%d" % r)
+
+
+def radix_cfgs(r, cfgs):
+    """configurations (out of cfgs) in which radix r exists"""
+    out = []
+    for c in cfgs:
+        feats = vlib.CONFIGS[c]
+        if r == 10 or "radix" in feats or ("pow2" in feats and r in (2, 4, 8, 16, 32)):
+            out.append(c)
+    return out
+
+
+def exp_char(r):
+    return 101 if r < 15 else 94          # 'e' is a digit from radix 15 on: use '^'
+
+
+# ================================================================================================
+# C02
+
+def plan_C02(tier, rng):
+    cs = Cases()
+    quick = tier == "quick"
+    cfgs = ["default", "compact"] if quick else ["default", "compact", "rf", "crf"]
+    vals = []
+    for F in (F64, F32):
+        nb = (1 << F["ebits"]) - 1
+        binades = list(range(nb))
+        vals += [(b, t, F) for (b, t) in gens.float_values(F, rng, nrand=300 if quick else 20000,
+                                                            per_binade=1 if quick else 4,
+                                                            binades=binades if (not quick or F is F32) else rng.sample(binades, 700))]
+        # all shorter-interval floats (mantissa field 0) -- exhaustive
+        vals += [("%x" % (ef << F["mbits"]), "shorter-interval", F) for ef in range(1, nb)]
+        if F is F64:
+            vals += [(b, t, F) for (b, t) in gens.endpoint_family(F, rng, 17 if quick else 15, 22)]
+            vals += [(b, t, F) for (b, t) in gens.endpoint_family(F, rng, 0, 16 if quick else 14, limit=40 if quick else 1500)]
+        else:
+            vals += [(b, t, F) for (b, t) in gens.endpoint_family(F, rng, 6 if quick else 4, 10)]
+            vals += [(b, t, F) for (b, t) in gens.endpoint_family(F, rng, 0, 5 if quick else 3, limit=40 if quick else 1500)]
+        for k in range(-330 if F is F64 else -46, 310 if F is F64 else 40):
+            try:
+                vals.append((gens.pyfloat_bits(F, float("1e%d" % k)), "pow10", F))
+            except OverflowError:
+                pass
+        p = F["p"]
+        for j in range(-6, 7):
+            vals.append((gens.float_bits(F, *norm(F, (1 << p) + j, 0)), "int-2^p", F))
+    i = 0
+    for (bits, tag, F) in vals:
+        i += 1
+        ep = cs.new_ep()
+        ty = F["name"]
+        cs.write(ep, ty, 0, bits, cfgs, std=True, tag=tag)
+        cs.write(ep, ty, 0, bits, [cfgs[i % len(cfgs)]], wo=True, opts=wf())
+    models = [("MC_BigNat.tla", "MC_BigNat.cfg", 4, 600), ("MC_Ieee.tla", "MC_Ieee.cfg", 4, 900)]
+    return cs, models, {"input_families": cs.tags, "configurations": cfgs}
+
+
+def norm(F, m, e):
+    p = F["p"]
+    while m >= (1 << p):
+        m >>= 1
+        e += 1
+    return m, e
+
+
+# ================================================================================================
+# C03
+
+def plan_C03(tier, rng):
+    cs = Cases()
+    quick = tier == "quick"
+    cfgs = ["default", "compact", "radix"] if quick else ["default", "compact", "radix", "pow2", "crf"]
+    small = ["u8", "i8"] if quick else ["u8", "i8", "u16", "i16"]
+    for ty in gens.INT_TYPES:
+        lo, hi = gens.int_range(ty)
+        for r in range(2, 37):
+            rc = radix_cfgs(r, cfgs)
+            if not rc:
+                continue
+            if ty in small:
+                if ty in ("u16", "i16"):
+                    vs = range(lo, hi + 1) if r in (2, 3, 7, 10, 16, 36) else gens.boundary_ints(ty, r, rng, 40)
+                else:
+                    vs = range(lo, hi + 1)
+            else:
+                vs = gens.boundary_ints(ty, r, rng, 3 if quick else 40)
+            f = radix_fmt(r)
+            ep = cs.new_ep()
+            j = 0
+            for v in vs:
+                j += 1
+                if r == 10:
+                    cs.write(ep, ty, 0, str(v), [rc[j % len(rc)]], std=True, tag="decimal")
+                    if j % 4 == 0:
+                        cs.write(ep, ty, 0, str(v), [rc[(j + 1) % len(rc)]], wo=True, tag="decimal-opts")
+                else:
+                    cs.write(ep, ty, f, str(v), [rc[j % len(rc)]], wo=True, tag="radix")
+                if j % 64 == 0:
+                    ep = cs.new_ep()
+    models = [("MC_BigNat.tla", "MC_BigNat.cfg", 4, 600)]
+    return cs, models, {"input_families": cs.tags, "configurations": cfgs,
+                        "exhaustive_types": small}
+
+
+# ================================================================================================
+# C04
+
+def c04_strings(ty, r, rng, quick):
+    """numerals around the limits, long zero prefixes, invalid bytes at every position"""
+    lo, hi = gens.int_range(ty)
+    out = []
+    vs = [hi - 1, hi, hi + 1, hi + r, lo + 1, lo, lo - 1, lo - r, 0, 1, -1, hi * r, hi * r + 1, lo * r - 1, (hi + 1) * r * r]
+    k = 1
+    while r ** k <= hi * r:
+        vs += [r ** k - 1, r ** k, -(r ** k)]
+        k += 1
+    for v in vs:
+        s = gens.int_numeral(v, r, lower=rng.random() < 0.5)
+        out.append(s)
+        if rng.random() < 0.3:
+            out.append("+" + s.lstrip("-"))
+        if rng.random() < 0.5:
+            z = rng.choice([1, 3, 8, 20, 40])
+            out.append(("-" if s.startswith("-") else "") + "0" * z + s.lstrip("-"))
+    top = gens.DIG[r - 1]
+    nd = len(gens.to_radix(hi, r))
+    for n in (nd - 1, nd, nd + 1, nd + 2):
+        out.append(top * max(n, 1))
+        out.append("-" + top * max(n, 1))
+    bad = [b"/", b":", b"@", b"[", b"`", b"{", b"\x80", b"\xff", b" ", b".", b"e", b"_", gens.DIG[r % 36].encode() if r < 36 else b"~",
+           gens.DIG[r % 36].lower().encode() if r < 36 else b"|", b"g", b"G", b"z", b"Z"]
+    base = gens.int_numeral(rng.randrange(0, hi + 1), r)
+    for _ in range(6 if quick else 40):
+        n = rng.choice([1, 2, 3, 4, 5, 7, 8, 9, 12, 16, 17, 20])
+        s = "".join(rng.choice(gens.DIG[:r]) for _ in range(n))
+        pos = rng.randrange(0, n + 1)
+        b = rng.choice(bad)
+        out.append(s[:pos].encode() + b + s[pos:].encode())
+    out += ["", "+", "-", "+-1", "--1", "-+1", "1-", "1+", " 1", "1 "]
+    return out
+
+
+def plan_C04(tier, rng):
+    cs = Cases()
+    quick = tier == "quick"
+    cfgs = ["default", "compact", "radix"] if quick else ["default", "compact", "radix", "pow2", "rf"]
+    i = 0
+    for ty in gens.INT_TYPES:
+        radices = list(range(2, 37))
+        if quick and ty in ("usize", "isize", "u16", "i16"):
+            radices = [2, 10, 16, 36]
+        for r in radices:
+            rc = radix_cfgs(r, cfgs)
+            if not rc:
+                continue
+            f = radix_fmt(r)
+            ep = cs.new_ep()
+            for s in c04_strings(ty, r, rng, quick):
+                i += 1
+                data = list(s) if isinstance(s, bytes) else B(s)
+                nmd = (i % 3 != 0)
+                if r == 10:
+                    cs.parse(ep, ty, 0, data, [rc[i % len(rc)]], std=True, tag="decimal")
+                    cs.parse(ep, ty, 0, data, [rc[(i + 1) % len(rc)]], partial=True)
+                    if i % 3 == 0:
+                        cs.parse(ep, ty, 0, data, [rc[(i + 2) % len(rc)]], wo=True, opts={"nmd": nmd})
+                else:
+                    cs.parse(ep, ty, f, data, [rc[i % len(rc)]], wo=True, opts={"nmd": nmd}, tag="radix")
+                    if i % 2 == 0:
+                        cs.parse(ep, ty, f, data, [rc[(i + 1) % len(rc)]], wo=True, opts={"nmd": nmd}, partial=True)
+                if i % 40 == 0:
+                    ep = cs.new_ep()
+    # random byte strings (totality of the contract)
+    for _ in range(300 if quick else 5000):
+        ep = cs.new_ep()
+        n = rng.choice([0, 1, 2, 3, 5, 8, 9, 16, 33])
+        data = [rng.choice([rng.randrange(256), rng.randrange(48, 58), rng.randrange(48, 58), 43, 45]) for _ in range(n)]
+        ty = rng.choice(list(gens.INT_TYPES))
+        cs.parse(ep, ty, 0, data, [rng.choice(cfgs)], std=True, tag="random-bytes")
+        cs.parse(ep, ty, 0, data, [rng.choice(cfgs)], partial=True)
+    models = [("MC_BigNat.tla", "MC_BigNat.cfg", 4, 600), ("MC_IntParse.tla", "MC_IntParse.cfg", 8, 900)]
+    return cs, models, {"input_families": cs.tags, "configurations": cfgs}
+
+
+PLANS = {"C01": plan_C01, "C02": plan_C02, "C03": plan_C03, "C04": plan_C04}
+
 
 ASSUME = {
     "C01": ["TLC 1.8.0 and the CommunityModules Json/IOUtils overrides evaluate the specification faithfully",
